@@ -266,13 +266,19 @@ cut_harness!(fd_cut_raw2raw0_14_obo, SK_RAW2_RAW0, 14, true);
 pub(crate) enum Op {
     All, Blocks(usize), Bytes(usize),
     Collect, ReadN(usize),
-    /// collect_to_writer into a sink that takes `accept` bytes in total and then answers Ok(0) (false) or WouldBlock (true)
-    Sink(usize, bool),
+    /// collect_to_writer into a sink that takes `accept` bytes, then answers one stop - Ok(0) (false) or WouldBlock (true) -
+    /// and would then take `resume` more bytes within the same call
+    Sink(usize, bool, usize),
 }
 
-struct Sink { buf: [u8; MAXC], n: usize, accept: usize, block: bool }
+struct Sink { buf: [u8; MAXC], n: usize, accept: usize, block: bool, resume: usize }
 impl Write for Sink {
     fn write(&mut self, b: &[u8]) -> Result<usize, Error> {
+        if self.accept == 0 && self.resume > 0 {
+            self.accept = self.resume; self.resume = 0;
+            if self.block { return Err(Error::from(crate::io::ErrorKind::WouldBlock)); }
+            return Ok(0);
+        }
         if self.accept == 0 {
             if self.block { return Err(Error::from(crate::io::ErrorKind::WouldBlock)); }
             return Ok(0);
@@ -312,8 +318,8 @@ pub(crate) fn run_program(sk: &Skel, chunk: usize, prog: &[Op]) {
                 assert!(got <= k);
                 n += got;
             }
-            Op::Sink(accept, block) => {
-                let mut sink = Sink { buf: [0u8; MAXC], n: 0, accept, block };
+            Op::Sink(accept, block, resume) => {
+                let mut sink = Sink { buf: [0u8; MAXC], n: 0, accept, block, resume };
                 let before = dec.can_collect();
                 match dec.collect_to_writer(&mut sink) {
                     Ok(w) => { assert!(w == sink.n, "collect_to_writer reported a count different from what the sink took"); }
@@ -343,22 +349,22 @@ use Op::{Blocks, Bytes, Collect, ReadN};
 prog_harness!(fd_prog_a_blocks1_read_each, SK_LYING_RAW3_RLE3_RAW2_CK, usize::MAX, [Blocks(1), ReadN(8), Blocks(1), ReadN(8), Blocks(1), ReadN(8)]);
 prog_harness!(fd_prog_a_blocks1_collect_each, SK_LYING_RAW3_RLE3_RAW2_CK, usize::MAX, [Blocks(1), Collect, Blocks(1), Collect, Blocks(1), Collect]);
 prog_harness!(fd_prog_a_blocks2_read1_frag3, SK_LYING_RAW3_RLE3_RAW2_CK, 3, [Blocks(2), ReadN(1), ReadN(1), Blocks(1), ReadN(2)]);
-prog_harness!(fd_prog_a_bytes1_sink_partial, SK_LYING_RAW3_RLE3_RAW2_CK, usize::MAX, [Bytes(1), Bytes(1), Op::Sink(1, false), Op::Sink(8, false), Bytes(1)]);
-prog_harness!(fd_prog_a_bytes4_sink_wouldblock_retry, SK_LYING_RAW3_RLE3_RAW2_CK, usize::MAX, [Bytes(4), Op::Sink(2, true), Op::Sink(0, true), Op::Sink(8, false), Op::All, Op::Sink(3, true)]);
-prog_harness!(fd_prog_a_all_sink_split, SK_LYING_RAW3_RLE3_RAW2_CK, 1, [Op::All, Op::Sink(5, false), Op::Sink(1, true), ReadN(1)]);
+prog_harness!(fd_prog_a_bytes1_sink_partial, SK_LYING_RAW3_RLE3_RAW2_CK, usize::MAX, [Bytes(1), Bytes(1), Op::Sink(1, false, 4), Op::Sink(8, false, 0), Bytes(1)]);
+prog_harness!(fd_prog_a_bytes4_sink_wouldblock_retry, SK_LYING_RAW3_RLE3_RAW2_CK, usize::MAX, [Bytes(4), Op::Sink(2, true, 0), Op::Sink(0, true, 0), Op::Sink(8, false, 0), Op::All, Op::Sink(3, true, 0)]);
+prog_harness!(fd_prog_a_all_sink_split, SK_LYING_RAW3_RLE3_RAW2_CK, 1, [Blocks(2), ReadN(3), Op::All, Op::Sink(1, false, 6), Op::Sink(1, true, 2), ReadN(1)]);
 prog_harness!(fd_prog_a_bytes6_collect_read, SK_LYING_RAW3_RLE3_RAW2_CK, 2, [Bytes(6), Collect, ReadN(8), Blocks(1), Collect]);
-prog_harness!(fd_prog_a_blocks1_sink0, SK_LYING_RAW3_RLE3_RAW2_CK, usize::MAX, [Blocks(1), Op::Sink(0, false), Blocks(1), Op::Sink(8, false), Op::Sink(8, true)]);
+prog_harness!(fd_prog_a_blocks1_sink0, SK_LYING_RAW3_RLE3_RAW2_CK, usize::MAX, [Blocks(1), Op::Sink(0, false, 0), Blocks(1), Op::Sink(8, false, 0), Op::Sink(8, true, 0)]);
 // skeleton B: honest single segment 7, raw(4) raw(3) empty last, checksum
 prog_harness!(fd_prog_b_blocks1_read_small, SK_RAW4_RAW3_RAW0_CK, usize::MAX, [Blocks(1), ReadN(3), Blocks(1), ReadN(3), Blocks(1), ReadN(1)]);
 prog_harness!(fd_prog_b_bytes5_collect, SK_RAW4_RAW3_RAW0_CK, 4, [Bytes(5), Collect, Bytes(5), Collect]);
-prog_harness!(fd_prog_b_all_sink_then_read, SK_RAW4_RAW3_RAW0_CK, usize::MAX, [Op::All, Op::Sink(3, true), ReadN(2), Op::Sink(8, false)]);
+prog_harness!(fd_prog_b_all_sink_then_read, SK_RAW4_RAW3_RAW0_CK, usize::MAX, [Op::All, Op::Sink(3, true, 0), ReadN(2), Op::Sink(8, false, 0)]);
 prog_harness!(fd_prog_b_blocks2_then_all, SK_RAW4_RAW3_RAW0_CK, 5, [Blocks(2), Collect, Op::All]);
 // skeleton C: window descriptor, RLE(3) raw(2)
 prog_harness!(fd_prog_c_blocks1_read_each, SK_WD_RLE3_RAW2, usize::MAX, [Blocks(1), ReadN(8), Blocks(1), ReadN(2)]);
 // more programs on A without checksum (thorough)
 prog_harness!(fd_prog_a2_bytes3_read2, SK_LYING_RAW3_RLE3_RAW2, usize::MAX, [Bytes(3), ReadN(2), Bytes(3), ReadN(2), Bytes(3), ReadN(2)]);
-prog_harness!(fd_prog_a2_blocks3_sink_each, SK_LYING_RAW3_RLE3_RAW2, usize::MAX, [Blocks(3), Op::Sink(1, false), Op::Sink(1, true), Op::Sink(1, false), Op::Sink(8, true)]);
-prog_harness!(fd_prog_a2_collect_before_decode, SK_LYING_RAW3_RLE3_RAW2, 1, [Collect, ReadN(4), Op::Sink(4, false), Blocks(1), Blocks(1), Collect]);
+prog_harness!(fd_prog_a2_blocks3_sink_each, SK_LYING_RAW3_RLE3_RAW2, usize::MAX, [Blocks(3), Op::Sink(1, false, 0), Op::Sink(1, true, 0), Op::Sink(1, false, 0), Op::Sink(8, true, 0)]);
+prog_harness!(fd_prog_a2_collect_before_decode, SK_LYING_RAW3_RLE3_RAW2, 1, [Collect, ReadN(4), Op::Sink(4, false, 0), Blocks(1), Blocks(1), Collect]);
 
 // ------------------------------------------------------------------------------------------------ C07 reuse
 /// History H on frame A (0: completed and drained / 1: completed and NOT drained / 2: abandoned after one block /
@@ -574,3 +580,65 @@ harness! { fn fd_from_to_checksum_split_2_2() { from_to(&SK_RLE3_RAW2_CK, &[15, 
 harness! { fn fd_from_to_block_by_block_small_target() { from_to(&SK_RLE3_RAW2_CK, &[10, 15, 19], 2); } }
 harness! { fn fd_from_to_mid_block_chunks() { from_to(&SK_RLE3_RAW2_CK, &[8, 12, 16, 19], 8); } }
 harness! { fn fd_from_to_nock_two_chunks() { from_to(&SK_RLE3_RAW2, &[11, 15], 3); } }
+
+// minimal decode_from_to instances (two calls, no drain loop): the checksum arrives in its own chunk / split in two
+pub(crate) const SK_RAW2_CK: Skel = Skel { single: true, declared: 2, wd: 0, checksum: true, nblocks: 1, blocks: [blk(false, 2), NOBLK, NOBLK] };
+fn from_to_min(second_end: usize) {
+    nd::set_stub_arg(0, 17);
+    let b = build(&SK_RAW2_CK); // header 6, block 3+2 (..11), trailer (..15)
+    let mut dec = FrameDecoder::new();
+    let mut out = [0u8; 8];
+    let (r1, w1) = ok_or_fail!(dec.decode_from_to(&b.data[..11], &mut out[..]), "first chunk refused");
+    assert!(r1 == 11 && w1 == 2, "first chunk: read/written counts");
+    assert!(dec.bytes_read_from_source() == 11);
+    let src2 = &b.data[11..second_end];
+    let (r2, w2) = ok_or_fail!(dec.decode_from_to(src2, &mut out[w1..]), "second chunk refused");
+    assert!(r2 <= src2.len(), "decode_from_to reports more bytes read than it was given");
+    assert!(w2 == 0);
+    assert!(dec.bytes_read_from_source() == 11 + r2 as u64, "bytes_read_from_source disagrees with the counts decode_from_to returned");
+    if second_end == 15 {
+        assert!(r2 == 4 && dec.is_finished() && dec.get_checksum_from_data() == Some(b.trailer), "checksum chunk not consumed");
+    } else {
+        assert!(r2 == 0 && !dec.is_finished(), "incomplete checksum consumed");
+    }
+    nd_cover!(true, "both calls done");
+    assert!(out[0] == b.content[0] && out[1] == b.content[1]);
+    core::mem::forget(dec);
+}
+harness! { fn fd_from_to_min_checksum_alone() { from_to_min(15); } }
+harness! { fn fd_from_to_min_checksum_partial() { from_to_min(13); } }
+
+// C06/C10: one decode_from_to step from the state "last block decoded, checksum still outstanding" (constructed
+// directly), for every source length 0..=6 and content: fewer than 4 bytes -> nothing consumed and nothing claimed;
+// 4 or more -> exactly 4 consumed, counter and stored checksum updated.  The reported count never exceeds the source.
+harness! { fn fd_from_to_checksum_step() {
+    let start: u64 = nd::any();
+    nd::assume(start <= 1 << 40);
+    let mut dec = FrameDecoder::new();
+    dec.state = Some(FrameDecoderState {
+        frame_header: crate::decoding::frame::verif_kani::mk_header(0x24, 0, 2), // single segment, checksum flag
+        decoder_scratch: DecoderScratch::new(2),
+        frame_finished: true,
+        block_counter: 1,
+        bytes_read_counter: start,
+        check_sum: None,
+        using_dict: None,
+    });
+    assert!(!dec.is_finished());
+    let bytes: [u8; 6] = nd::any();
+    let k: usize = nd::any();
+    nd::assume(k <= 6);
+    let mut out = [0u8; 2];
+    let (r, w) = ok_or_fail!(dec.decode_from_to(&bytes[..k], &mut out[..]), "checksum step refused");
+    assert!(r <= k, "decode_from_to reports more bytes read than it was given");
+    assert!(dec.bytes_read_from_source() == start + r as u64, "bytes_read_from_source disagrees with the count decode_from_to returned");
+    if k >= 4 {
+        assert!(r == 4 && w == 0 && dec.is_finished(), "available checksum not consumed");
+        assert!(dec.get_checksum_from_data() == Some(u32::from_le_bytes([bytes[0], bytes[1], bytes[2], bytes[3]])), "stored checksum misread");
+    } else {
+        assert!(r == 0 && !dec.is_finished() && dec.get_checksum_from_data().is_none(), "incomplete checksum consumed");
+    }
+    nd_cover!(k == 4, "exactly the checksum");
+    nd_cover!(k == 3, "one byte short");
+    core::mem::forget(dec);
+} }
